@@ -10,6 +10,7 @@ mod shard;
 mod props;
 mod report;
 mod runner;
+mod server;
 mod sim;
 
 fn main() {
